@@ -188,6 +188,33 @@ class FnTerms:
                                 if isinstance(st, ast.AugAssign):
                                     kind = "augitem"
                                 muts.setdefault(root_name, []).append((n.id, kind, (tt, st), subs))
+        # a mutation through a local name for an element of a container is a mutation of that container:
+        #   for i, L_i in enumerate(L_list): L_i.append(x)      lst = table[key]; lst.extend(xs)
+        aliases = {}
+        stores = {}
+        for x in ast.walk(self.fi.node):
+            if isinstance(x, ast.Name) and isinstance(x.ctx, ast.Store):
+                stores[x.id] = stores.get(x.id, 0) + 1
+        for x in ast.walk(self.fi.node):
+            if isinstance(x, ast.For):
+                it, tgt = x.iter, x.target
+                if isinstance(it, ast.Call) and dotted(it.func) == "enumerate" and len(it.args) == 1 and isinstance(it.args[0], ast.Name) and \
+                        isinstance(tgt, ast.Tuple) and len(tgt.elts) == 2 and all(isinstance(e_, ast.Name) for e_ in tgt.elts):
+                    aliases.setdefault(tgt.elts[1].id, []).append((it.args[0].id, tgt.elts[0], x))
+                elif isinstance(it, ast.Name) and isinstance(tgt, ast.Name):
+                    aliases.setdefault(tgt.id, []).append((it.id, None, x))
+            elif isinstance(x, ast.Assign) and len(x.targets) == 1 and isinstance(x.targets[0], ast.Name) and isinstance(x.value, ast.Subscript) and \
+                    isinstance(x.value.value, ast.Name) and not isinstance(x.value.slice, ast.Slice):
+                aliases.setdefault(x.targets[0].id, []).append((x.value.value.id, x.value.slice, x))
+        for name, al in aliases.items():
+            if len(al) != 1 or stores.get(name, 0) != 1 or name not in muts:
+                continue
+            base, idx, where = al[0]
+            if idx is None:
+                idx = ast.Name(id="__elem__", ctx=ast.Load())
+                ast.copy_location(idx, where)
+            for (mn, kind, payload, subs) in list(muts[name]):
+                muts.setdefault(base, []).append((mn, kind, payload, [idx] + list(subs)))
         # mutations performed by helpers on objects of this function: nested functions mutate free variables (closures),
         # same-module functions / methods mutate what is passed to them.  They are attributed to the call sites, with the
         # helper's parameters replaced by the arguments passed there.
@@ -341,6 +368,15 @@ class FnTerms:
                 elt = ("tuple", (self.term(e.key, nid, env2, depth + 1), self.term(e.value, nid, env2, depth + 1)))
             else:
                 elt = self.term(e.elt, nid, env2, depth + 1)
+            if not isinstance(e, (ast.DictComp, ast.SetComp)) and len(e.generators) == 1 and not e.generators[0].ifs and gens[0][1][0] in ("tuple", "list") and \
+                    1 <= len(gens[0][1][1]) <= 8 and isinstance(e.generators[0].target, ast.Name):
+                # a comprehension over a literal sequence is that sequence mapped element by element
+                out = []
+                for item in gens[0][1][1]:
+                    env3 = dict(env)
+                    env3[e.generators[0].target.id] = item
+                    out.append(self.term(e.elt, nid, env3, depth + 1))
+                return ("list", tuple(out))
             return ("comp", type(e).__name__, elt, tuple(gens))
         if isinstance(e, ast.Lambda):
             env2 = dict(env)
@@ -443,6 +479,21 @@ class FnTerms:
 
     def call_term(self, e, nid, env, depth):
         d = dotted(e.func)
+        if d == "map" and len(e.args) == 2 and not e.keywords and isinstance(e.args[0], (ast.Name, ast.Attribute)) and d not in env and not self.reaching("map", nid):
+            # map(f, xs)  ==  (f(x) for x in xs)
+            seq = self.term(e.args[1], nid, env, depth + 1)
+            env2 = dict(env)
+            env2["__map_item__"] = elem_of(seq)
+            call = ast.Call(func=e.args[0], args=[ast.Name(id="__map_item__", ctx=ast.Load())], keywords=[])
+            ast.copy_location(call, e)
+            ast.fix_missing_locations(call)
+            self._synth = getattr(self, "_synth", [])
+            self._synth.append(call)   # keep alive: term memo is keyed by node identity
+            return ("comp", "GeneratorExp", self.term(call, nid, env2, depth + 1), ((("__map_item__",), seq, ()),))
+        if d in ("list", "tuple") and len(e.args) == 1 and not e.keywords and d not in env and not self.reaching(d, nid):
+            inner = self.term(e.args[0], nid, env, depth + 1)
+            if inner[0] == "comp" and inner[1] in ("GeneratorExp", "ListComp"):
+                return ("comp", "ListComp", inner[2], inner[3])
         args, kwargs = self._args(e, nid, env, depth)
         if d:
             parts = d.split(".")
